@@ -46,8 +46,11 @@ CHECKS = {
             "exhaustive small-scope enumeration of single edits + Hypothesis "
             "rule-based state machine over edit histories, compared step by "
             "step with a plain-data model; dump/reload round-trip",
-            "Every scalar leaf of every document <= 3 nodes x 6 new values "
-            "(again with integer/number-like keys), "
+            "Every scalar leaf of every document <= 3 nodes x 16 new values "
+            "(null, bool, int, text, 6 floats incl. 10.0 / 1e20, literal "
+            "look-alike texts; again with integer/number-like keys and "
+            "through (parent)[i] Collector spellings, with and without a "
+            "value format), "
             "vocabulary paths, an enumerated family of anchored/aliased "
             "documents, and ~1000 random histories of up to 12 set/create/"
             "delete steps on one living document; the model is recomputed "
@@ -60,7 +63,9 @@ CHECKS = {
             "differential against a plain-data deletion model",
             "Every document <= 3 nodes x every vocabulary path <= 2 segments "
             "that matches something (again with integer/number-like keys, "
-            "and with 1 next to '1') is deleted through both public entry "
+            "and with 1 next to '1'; Collector additions of node coordinates "
+            "in every operand order; slices that can hold no element) is "
+            "deleted through both public entry "
             "points on fresh copies and compared with the model (matched set "
             "removed, everything else and its order kept); root deletion "
             "must be refused with the document unchanged.",
@@ -102,7 +107,9 @@ CHECKS = {
             "nesting) must leave a typed snapshot of the document (data, key "
             "order, anchors, alias cells) unchanged; ~4e4 creations of "
             "missing key/index tails of length 1-3 below every container or "
-            "null of every document <= 3 nodes must add exactly the tail.",
+            "null of every document <= 3 nodes must add exactly the tail "
+            "(for a Set: exactly the named member); merge-key documents with "
+            "own-key bookkeeping in the snapshot.",
             TRUST, "6/C09"),
     "C10": (True, "exploration",
             "exhaustive enumeration of an anchored-document family x anchor "
@@ -110,7 +117,8 @@ CHECKS = {
             "All pairs of left/right documents defining and aliasing scalar "
             "anchors from the pool {x, y, x_1} (aliases under keys and in "
             "sequences, optional second anchors so rename targets collide, "
-            "falsy values, either side optionally wrapped whole in an "
+            "falsy values, values equal only to Python such as true/1 and "
+            "2/2.0, either side optionally wrapped whole in an "
             "anchored and aliased hash) x stop/left/right/rename: acceptance, the value "
             "every alias position reads, rename consistency/uniqueness, and "
             "a strict dump/reload of the result.",
@@ -123,8 +131,9 @@ CHECKS = {
             "missing tails and unmatchable searches on ~1100 left documents "
             "x 8 right documents of every root kind x rotating policies, "
             "per-path rules naming the merge point or a path beneath it, "
-            "and targets that are an anchored container or its alias under "
-            "all 180 policies: "
+            "targets that are an anchored container or its alias (also "
+            "matched twice through /*) under all 180 policies, and empty "
+            "left documents: "
             "each target must be the policy merge of its old content, the "
             "complement must be untouched, unmatched paths must raise "
             "MergeException.",
@@ -147,7 +156,8 @@ CHECKS = {
             "oracles (Counter / max on plain values)",
             "Every same-kind scalar sequence, Array-of-Hashes and "
             "hash-of-hashes of <= 4 members (with ties, repeats, nulls, "
-            "missing attributes) x keyword x inversion x parameter "
+            "missing and null attributes, null members) x keyword x inversion "
+            "x parameter "
             "presence is compared with the keyword's definition; "
             "parent(n)/name() at every position of the C01 documents.",
             TRUST, "6/C13"),
@@ -159,7 +169,8 @@ CHECKS = {
             "null, regex, literal, keyword and collector edge cases, plus a "
             "grammar grid (every keyword x 32 degenerate parameter texts, "
             "attribute x operator x term/regex grids, 50 key names that are "
-            "literal syntax in Python/YAML) through "
+            "literal syntax in Python/YAML, every raw text of <= 4 symbols "
+            "the parser accepts) through "
             "required / exists / optional entry points; only "
             "YAMLPathException may escape. Root causes are bucketed by "
             "(type, frame, source line) so known findings do not hide new "
@@ -191,7 +202,7 @@ CHECKS["C18"] = (True, "exploration",
     "against a fresh pairwise fold (no shared objects) with a count/order "
     "oracle and a per-case termination watchdog",
     "Left/right streams of 1-3 documents from a 15-document pool (incl. an "
-    "empty document and overlapping arrays) under condense_all / merge_across / matrix_merge and 5 "
+    "empty document, overlapping arrays, dates, anchors and merge keys) under condense_all / merge_across / matrix_merge and 5 "
     "policy mixes are pushed through get_doc_mergers()+merge_docs(); the "
     "number, order and content of outputs must equal a reference that "
     "re-loads every document from text and builds a new Merger for every "
@@ -244,7 +255,8 @@ CHECKS["C17"] = (True, "fault_enumeration",
     "generated failure causes against a directory-snapshot oracle, and "
     "exhaustive single-fault enumeration over the I/O call sequence of each "
     "save (counting proxies installed in the command modules)",
-    "Every pre-write failure cause x document x {stale .bak, --backup} must "
+    "Every pre-write failure cause (incl. changes that only fail when "
+    "serialized) x document x {stale .bak, --backup} must "
     "exit non-zero with the directory byte-identical; for every successful "
     "yaml-set --backup / yaml-merge --overwrite --backup / eyaml-rotate-keys "
     "--backup base case (regular and symlinked targets) each of the save's "
@@ -262,6 +274,8 @@ CHECKS["C19"] = (True, "exploration",
     "frame and invocation-count invariants",
     "Seeded Hypothesis documents mixing plaintext with encrypted scalars at "
     "arbitrary positions (hash values, list elements, anchored + aliased, "
+    "inside anchored containers aliased elsewhere, tab / CR LF before the "
+    "marker, "
     "plain / quoted / folded / literal styles, awkward plaintexts incl. "
     "CR LF line ends), alone "
     "or two files per run, are rotated through the real eyaml-rotate-keys "
